@@ -291,6 +291,17 @@ def body(ctx, p):
                 want = bo if {a1, a2} == {ra, rb} else o_guess_bo(a1, a2)
                 if RU.guess_bond_order(a1, a2, rules) != want:
                     bad.append((a1, a2, (ra, rb)))
+        # angle and torsion parameters must follow the rules passed to THIS call, whatever was computed before
+        for trip in [('C_R', 'C_R', 'C_R'), ('C_R', 'N_R', 'C_R'), ('C_2', 'C_2', 'O_2')]:
+            base0 = RU.angle_params(*trip)
+            for rules, bo in [([({trip[0], trip[1]}, 1)], 1), ([({trip[0], trip[1]}, 2)], 2)]:
+                with_rules = RU.angle_params(*trip, bond_order_rules=rules)
+                explicit = RU.angle_params(*trip, bond_orders=[bo if {trip[0], trip[1]} == {trip[0], trip[1]} else None, bo if {trip[1], trip[2]} == {trip[0], trip[1]} else None])
+                if with_rules[0] != explicit[0] or any(abs(x - y) > 1e-9 * max(1, abs(x)) for x, y in zip(with_rules[1:], explicit[1:])):
+                    bad.append((trip, 'angle rules', with_rules[1], explicit[1]))
+            again = RU.angle_params(*trip)
+            if any(abs(x - y) > 1e-12 * max(1, abs(x)) for x, y in zip(base0[1:], again[1:])):
+                bad.append((trip, 'angle not reproducible'))
         ctx.observe('n', len(al) ** 2 * 5)
         ctx.require('bond orders: documented guesses; a user rule applies exactly to the pair of types it names', not bad, detail=dict(bad=bad[:5]))
         return
